@@ -84,8 +84,52 @@ fn binding(file: &slicec::slice_file::SliceFile, pos: &str) -> Value {
     }
 }
 
+/// every type a visitor is shown, projected
+#[derive(Default)]
+struct AllTypes {
+    seen: Vec<Value>,
+}
+impl slicec::visitor::Visitor for AllTypes {
+    fn visit_type_ref(&mut self, x: &TypeRef) {
+        self.seen.push(ast_project::type_ref(x)["t"].clone());
+    }
+}
+
+/// MC_WrongKind: a base list / an underlying type written with something of another kind (or a keyword, or an anonymous type)
+fn run_wrong_kind(case: &Value) -> Outcome {
+    let pos = case["pos"].as_str().unwrap_or("base");
+    let w = case["written"].as_str().unwrap_or("J");
+    let decl = match pos {
+        "base" => format!("interface Use : {w} {{}}"),
+        "base_second" => format!("interface Use : J2, {w} {{}}"),
+        "base_first_of_two" => format!("interface Use : {w}, J2 {{}}"),
+        _ => format!("enum Use : {w} {{ Y }}"),
+    };
+    let text = format!("module M\ninterface J {{}}\ninterface K {{}}\ninterface J2 {{}}\nstruct S {{}}\ntypealias Small = uint8\ntypealias Wide = Sequence<uint8>\n{decl}\n");
+    let rendered = json!({"files": [text]});
+    let key = hash_str(&text);
+    let state = slicec::compile_from_strings(&[&text], None);
+    let clean = !state.diagnostics.has_errors();
+    let bases = state.ast.find_element::<Interface>("M::Use").ok().map(|i| i.bases.len());
+    let underlying = state.ast.find_element::<Enum>("M::Use").ok().and_then(|e| e.underlying.as_ref().map(|u| if clean { u.definition().kind().to_owned() } else { String::new() }));
+    let want_ok = case["accepted"] == true;
+    let fail = if clean != want_ok {
+        Some(mismatch("a base list / underlying type naming something unsuitable is an error, something suitable is not", json!(want_ok), json!(clean)))
+    } else if clean && pos != "underlying" && bases.map(|b| b as u64) != case["bases"].as_u64() {
+        Some(mismatch("number of base interfaces of the accepted interface (every one that was written)", case["bases"].clone(), json!(bases)))
+    } else if clean && pos == "underlying" && underlying.as_deref().map(|k| k.is_empty()).unwrap_or(true) {
+        Some(mismatch("the underlying type of the accepted enum is bound", json!("a built-in type"), json!(underlying)))
+    } else {
+        None
+    };
+    Outcome { fail, nontrivial: true, key, rendered }
+}
+
 impl Family for Scope {
     fn run(&mut self, case: &Value) -> Outcome {
+        if case["wrongkind"] == true {
+            return run_wrong_kind(case);
+        }
         let placed = strs(&case["placed"]);
         let boxm = case["box"].as_u64().unwrap_or(0) as usize;
         let pos = case["pos"].as_str().unwrap_or("field");
@@ -127,6 +171,18 @@ impl Family for Scope {
         let state = slicec::compile_from_strings(&refs, None);
         let clean = !state.diagnostics.has_errors();
         let bounds: Vec<Value> = ref_files.iter().map(|f| if clean { binding(&state.files[*f], pos) } else { Value::Null }).collect();
+        // C20 on the same arrangements (VERIF_SCOPE_MODE=visit): the types a visitor is shown while walking each referencing file
+        let visit_mode = std::env::var("VERIF_SCOPE_MODE").map(|m| m == "visit").unwrap_or(false);
+        let shown: Vec<Vec<Value>> = ref_files
+            .iter()
+            .map(|f| {
+                let mut w = AllTypes::default();
+                if clean && visit_mode {
+                    state.files[*f].visit_with(&mut w);
+                }
+                w.seen
+            })
+            .collect();
         let diags = state.into_diagnostics(&Default::default());
         let errs: Vec<(String, String)> = diags
             .iter()
@@ -152,6 +208,9 @@ impl Family for Scope {
                         Some(mismatch("a reference that designates a suitable entity was rejected", want, json!(codes)))
                     } else if clean && bounds[k] != want {
                         Some(mismatch("the reference is bound to another entity than the scoping rules designate", want, json!({"reference": k, "bound": bounds[k]})))
+                    } else if clean && visit_mode && !matches!(pos, "base" | "underlying") && !shown[k].contains(&want) {
+                        // (bases and underlying types are not presented by the visitor)
+                        Some(mismatch("a visitor walking the file is shown the type the reference designates", want, json!({"reference": k, "shown": shown[k]})))
                     } else {
                         None
                     }
